@@ -115,6 +115,7 @@ func cmdShard(args []string) {
 	if *mode == "conc" {
 		for h := 0; h < *hist; h++ {
 			r := sd.NewRunner(cfg, *seed*1000+int64(h), tw, *dir)
+			r.SlowGet = time.Duration(*slowGet) * time.Microsecond
 			if err := r.RunConcHistory(h, sd.ConcOpts{Batches: *batches, Readers: *readers, Rank: *rank, Cold: *cold, MaxBatch: *maxBatch, Other: *other}); err != nil {
 				fmt.Fprintln(os.Stderr, "driver error:", err)
 				os.Exit(2)
